@@ -112,6 +112,8 @@ where
     fn call(&mut self, req: Req) -> Self::Future {
         let start = clock_now();
         self.in_flight.fetch_add(1, Ordering::Relaxed);
+        // Gives the slot back when the call completes, fails, panics or is dropped
+        let in_flight_guard = InFlightGuard(Arc::clone(&self.in_flight));
 
         let future = self.inner.call(req);
 
@@ -127,7 +129,6 @@ where
         }
 
         let algorithm = Arc::clone(&self.algorithm);
-        let in_flight = Arc::clone(&self.in_flight);
         let semaphore = Arc::clone(&self.semaphore);
         let current_limit = Arc::clone(&self.current_limit);
 
@@ -137,7 +138,7 @@ where
                 let latency = clock_now().duration_since(start);
 
                 // Decrement in-flight counter
-                in_flight.fetch_sub(1, Ordering::Relaxed);
+                drop(in_flight_guard);
 
                 match &result {
                     Ok(_) => algorithm.record_success(latency),
@@ -158,6 +159,15 @@ where
                 result.map_err(AdaptiveError::Service)
             }),
         }
+    }
+}
+
+/// Decrements the in-flight counter when dropped.
+struct InFlightGuard(Arc<AtomicUsize>);
+
+impl Drop for InFlightGuard {
+    fn drop(&mut self) {
+        self.0.fetch_sub(1, Ordering::Relaxed);
     }
 }
 
